@@ -67,6 +67,15 @@ func (c14) Gen(r *rand.Rand, tier string, run int) *core.Case {
 		c.Ops = append(c.Ops, core.Op{Kind: "update", Actor: 60, X: next})
 		next++
 	}
+	// other subscribers come and go while writes are announced: they are not
+	// judged themselves, the stable subscribers must not be disturbed
+	if r.IntN(2) == 0 {
+		churn := 1 + r.IntN(2)
+		c.Params["churn"] = churn
+		for i := 0; i < churn; i++ {
+			c.Ops = append(c.Ops, core.Op{Kind: "churn-cancel", Actor: 61 + i, X: int64(i), Y: int64(r.IntN(10))})
+		}
+	}
 	return c
 }
 
@@ -99,6 +108,31 @@ func (c14) Run(c *core.Case, env *core.Env) {
 			return
 		}
 		proxies = append(proxies, p)
+	}
+	// churning subscribers register first (so that they are not the last
+	// entries of the server's table) and leave during the run
+	var churnCancel []func()
+	for i := 0; i < c.P("churn", 0); i++ {
+		cl, err := Connect(fmt.Sprintf("churn%d", i), "u", "p")
+		if err != nil {
+			env.Violate("setup/connect", "%v", err)
+			return
+		}
+		p, err := ProbeProxy(cl, w.ServiceID, 1)
+		if err != nil {
+			env.Violate("setup/proxy", "%v", err)
+			return
+		}
+		cancel, ch, err := p.SubscribeLevel()
+		if err != nil {
+			env.Violate("setup/subscribe", "%v", err)
+			return
+		}
+		churnCancel = append(churnCancel, cancel)
+		go func() {
+			for range ch {
+			}
+		}()
 	}
 	// subscribers, each on its own connection, subscribed for the whole run
 	nSub := c.P("subscribers", 1)
@@ -199,6 +233,13 @@ func (c14) Run(c *core.Case, env *core.Env) {
 					h := env.Invoke(a, "set-wrong-type", v.Signature()+":"+op.S)
 					err := p.SetProperty(name, v)
 					env.Return(h, "", err)
+				case "churn-cancel":
+					if int(op.X) < len(churnCancel) {
+						for j := 0; j < int(op.Y); j++ {
+							zzsim.Yield("h.churn-pause")
+						}
+						churnCancel[op.X]()
+					}
 				case "update":
 					h := env.Invoke(a, "update", strconv.Itoa(int(op.X)))
 					err := w.Impls[0].Helper.UpdateLevel(int32(op.X))
